@@ -169,6 +169,12 @@ def small_scope(ctx):
             k = rng.choice([3, 3, 4, 5])
             fs.append(rng.sample(range(N), k))
         used = sorted({v for f in fs for v in f})
+        if rng.random() < 0.4:
+            # keep nodes that no face uses (valence 0), anywhere in the numbering: a regional cut-out
+            # that kept its parent's node arrays
+            keep = sorted(set(used) | set(rng.sample(range(N), rng.randint(1, 2))))
+            ctx.hit("unused-node" if len(keep) > len(used) else "no-unused-node")
+            used = keep
         mp = {v: i for i, v in enumerate(used)}
         m = meshes.AMesh([[mp[v] for v in f] for f in fs], xyz[used], False, "small-scope")
         before = ctx.stats["pre-holds"]
@@ -188,6 +194,10 @@ def run(ctx):
     for rep in range(ctx.n(2, 10)):
         for m in meshes.zoo(ctx.rng, big=(ctx.thorough or ctx.escalate or rep == 0)):
             judge(ctx, m, m.kind)
+            if m.n_face <= 40 and ctx.rng.random() < 0.35:
+                mo = meshes.with_orphans(m, ctx.rng)
+                ctx.hit("orphan-nodes@" + mo.kind.rsplit("@", 1)[1])
+                judge(ctx, mo, mo.kind)
     sample_files(ctx)
 
 
